@@ -270,14 +270,7 @@ class HSym:
         return s_ceil(_sc(x))
 
     def is_integer(self, x):
-        x = _sc(x)
-        if is_sym(x):
-            if z3.is_int(x):
-                return True
-            if z3.is_bool(x):
-                return True
-            return x == z3.ToReal(z3.ToInt(x))
-        return float(x) == int(x)
+        return sym.s_is_integer(_sc(x))
 
     def div(self, a, b):
         return s_div(_sc(a), _sc(b))
